@@ -278,7 +278,25 @@ func init() {
 		rng := rand.New(rand.NewSource(*c.seed))
 		rng.Shuffle(len(cases), func(i, j int) { cases[i], cases[j] = cases[j], cases[i] })
 		if *c.limit > 0 && len(cases) > *c.limit {
-			cases = cases[:*c.limit]
+			// at least two thirds of the sample: dumps / reports without a predicted parse error
+			clean := cleanPrints(cases)
+			isClean := map[string]bool{}
+			for _, p := range clean {
+				isClean[p.raw] = true
+			}
+			var faulty []printCase
+			for _, p := range cases {
+				if !isClean[p.raw] {
+					faulty = append(faulty, p)
+				}
+			}
+			if len(faulty) > *c.limit/3 {
+				faulty = faulty[:*c.limit/3]
+			}
+			if len(clean) > *c.limit-len(faulty) {
+				clean = clean[:*c.limit-len(faulty)]
+			}
+			cases = append(clean, faulty...)
 		}
 		var wg sync.WaitGroup
 		ch := make(chan int, 64)
